@@ -40,7 +40,7 @@ PARTIAL = [
 
 TRANSLATOR = "harness/translators/indelmap.py + harness/translators/featuremap.py"
 MODEL_TARGETS = ["theories/Model/IndelMapRun.vo", "theories/Model/FeatureMapRun.vo"]
-EQ_FILES = ["IndelMapGenEq.v", "IndelMapGenMergeEq.v", "IndelMapGenLoopEq.v", "IndelMapGenCoordsEq.v", "IndelMapGenJoinEq.v", "FeatureMapGenEq.v"]
+EQ_FILES = ["IndelMapGenEq.v", "IndelMapGenMergeEq.v", "IndelMapGenLoopEq.v", "IndelMapGenCoordsEq.v", "IndelMapGenJoinEq.v", "IndelMapGenSeqMapEq.v", "FeatureMapGenEq.v"]
 
 
 TRANSLATORS = [  # (script, generated file, last line of a complete output)
@@ -117,10 +117,10 @@ def tie_report(terr, records, pr):
         status = "ok"
     return dict(
         status=status, translator=TRANSLATOR, generated="coq/gen/IndelMapGen.v (module G), coq/gen/FeatureMapGen.v (module GF)",
-        equality_file="coq/theories/Proofs/IndelMapGen{Eq,MergeEq,LoopEq,CoordsEq,JoinEq}.v, FeatureMapGenEq.v", equality_with_model_proved=proved,
+        equality_file="coq/theories/Proofs/IndelMapGen{Eq,MergeEq,LoopEq,CoordsEq,JoinEq,SeqMapEq}.v, FeatureMapGenEq.v", equality_with_model_proved=proved,
         equality_lemmas=lemmas if proved else [], transported_theorems=gen_thms if proved else [],
         functions=records,
-        not_translated=["IndelMap.from_spans / spans_to_gap_coords", "make_seq_feature_map", "to_rich_dict / from_rich_dict",
+        not_translated=["IndelMap.from_spans / spans_to_gap_coords", "to_rich_dict / from_rich_dict",
                         "Sequence.parse_out_gaps", "FeatureMap.__getitem__ / Span.remap_with / Span.__getitem__ (bisect + in-place "
                         "surgery on lists of span objects)", "FeatureMap.covered (its sweep puts an Optional start into the emitted "
                         "pairs)", "FeatureMap.__mul__, __add__, without_gaps, get_coordinates, get_gap_coordinates, zeroed"],
@@ -412,6 +412,36 @@ def join_items(c):
     return items
 
 
+def o_seq_span(mask, s, e):
+    """the pointwise image of the alignment span [s, e): the residue indices of its residue columns, as a span"""
+    pos = [mask[:c_].count("x") for c_ in range(s, e) if mask[c_] == "x"]
+    lo, hi = mask[:s].count("x"), mask[:e].count("x")
+    assert pos == list(range(lo, hi))
+    return [[lo, hi]]
+
+
+def span_shape(mask, s, e):
+    n = len(mask)
+    inside = mask[s:e]
+    if s == e:
+        return "empty-span"
+    if "x" not in inside:
+        return "wholly-in-gap"
+    first = "gap" if mask[s] == "-" else "res"
+    last = "gap" if mask[e - 1] == "-" else "res"
+    tail = ":ends-in-trailing-gap" if (last == "gap" and "x" not in mask[e - 1:]) else ""
+    return f"first-col-{first}:last-col-{last}{tail}"
+
+
+def seqmap_items(c):
+    mask = c["mask"]
+    items = []
+    for s, e, rev in c["spans"]:
+        items.append(("make_seq_feature_map", [s, e, rev], "make_seq_feature_map:" + span_shape(mask, s, e), o_seq_span(mask, s, e)))
+    items.append(("make_seq_feature_map.parent_length", None, "make_seq_feature_map:parent_length", mask.count("x")))
+    return items
+
+
 def matches(impl, oracle):
     """does the implementation's observation satisfy the oracle's expectation?"""
     if isinstance(oracle, str) and oracle == NA:
@@ -612,7 +642,12 @@ def fm_items(c):
             if not isinstance(got, list):
                 return exp
             return None if (fm_den_obs(got) == exp and got[1] == plen) else exp
-        add("getitem_map", sub, "fmap:getitem:map" + (":reversed" if any(not isinstance(s, int) and s[2] for s in sub_t) else "")
+        real_sub = [s for s in sub_t if not isinstance(s, int)]
+        outside = any(s[1] <= 0 or s[0] >= n for s in real_sub if not (s[0] == s[1] and 0 <= s[0] <= n)) and bool(spec)
+        overhang = any(s[0] < 0 or s[1] > n for s in real_sub)
+        # a span lying ENTIRELY outside the map is a separate stream (finding C08-6: remap_with pads it twice)
+        add("getitem_map", sub, "fmap:getitem:map" + (":wholly-outside" if outside else
+                                                      (":reversed" if any(s[2] for s in real_sub) else "") + (":overhang" if overhang else ""))
             + ("" if spec else ":empty-map"), chk_comp)
     for a, b in c["slices"]:
         def chk_slice(got, a=a, b=b):
@@ -710,6 +745,29 @@ def exhaustive_join(tier):
         if not m:
             continue
         out.append(dict(kind="join", mask=m, coordss=seg_lists(len(m), kmax), block="exhaustive"))
+    return out
+
+
+def exhaustive_seqmap(tier):
+    """every mask of length <= 6 (thorough 9) x every alignment span [s, e), forward and (flag only) reversed"""
+    nmax = 6 if tier == "quick" else 9
+    out = []
+    for m in all_masks(nmax):
+        n = len(m)
+        spans = [[a, b, False] for a in range(n + 1) for b in range(a, n + 1)]
+        spans += [[a, b, True] for a in range(n + 1) for b in range(a, n + 1) if (a + b) % 3 == 0]
+        out.append(dict(kind="seqmap", mask=m, spans=spans, block="exhaustive"))
+    return out
+
+
+def random_seqmap(rng, tier):
+    out = []
+    for _ in range(30 if tier == "quick" else 300):
+        n = rng.choice([12, 20, 40, 80, 150])
+        mask = rand_mask(rng, n)
+        pts = interesting_points(mask, rng, 16)
+        spans = [[a, b, rng.random() < 0.2] for a in pts for b in pts if a <= b]
+        out.append(dict(kind="seqmap", mask=mask, spans=spans, block="random"))
     return out
 
 
@@ -846,11 +904,30 @@ def fmap_cases(rng, tier):
     small = [[]] + [[s] for s in segs] + [[s, t] for s in segs for t in segs]
     for spec in small:
         out.append(dict(kind="fmap", spans=spec, plen=4, scales=[1, 3], subs=[], slices=[[0, 2], [1, None]], block="exhaustive"))
+    # composition with an inner span that is reversed and / or overhangs the map (also lies wholly outside it): every map of
+    # <= 2 spans (forward, reversed, lost) on a parent of length 3 x every single inner span [a, b), -2 <= a <= b <= len + 2,
+    # in both directions
+    segs3 = [[a, b, r] for a in range(4) for b in range(a, 4) for r in (False, True)] + [1]
+    maps3 = [[s] for s in segs3] + [[s, t] for s in segs3 for t in segs3]
+    if tier == "quick":
+        maps3 = [m for k, m in enumerate(maps3) if len(m) == 1 or k % 3 == 0]
+    for spec in maps3:
+        n = sum(s if isinstance(s, int) else s[1] - s[0] for s in spec)
+        subs = [[[a, b, r]] for a in range(-2, n + 3) for b in range(a, n + 3) for r in (False, True)]
+        out.append(dict(kind="fmap", spans=spec, plen=3, scales=[], subs=subs, slices=[], block="exhaustive"))
     for _ in range(ncases):
         plen = rng.choice([0, 1, 4, 9, 15, 30])
         spec = rand_fmap_spec(rng, plen)
         n = sum(s if isinstance(s, int) else s[1] - s[0] for s in spec)
         subs = [rand_fmap_spec(rng, n, allow_overlap=True, allow_rev=True, allow_lost=True) for _ in range(3)] if n else []
+        if n:
+            # overhanging inner spans, half of them reversed; now and then wholly outside
+            for _k in range(2):
+                a = rng.randint(-4, n - 1)
+                b = rng.randint(max(a, 1), n + 4)
+                subs.append([[a, b, rng.random() < 0.5]] + ([rng.choice([1, 2])] if rng.random() < 0.3 else []))
+            if rng.random() < 0.15:
+                subs.append([rng.choice([[-5, -2, True], [-3, -1, False], [n + 1, n + 3, True], [n, n + 2, False]])])
         slices = []
         for _ in range(3):
             a, b = sorted((rng.randint(0, n), rng.randint(0, n)))
@@ -888,6 +965,8 @@ def coq_case(c):
     if c["kind"] == "join":
         return f"CJoin {cmask(c['mask'])} [" + ";".join(
             "[" + ";".join(f"({zlit(a)},{zlit(b)})" for a, b in cs) + "]" for cs in c["coordss"]) + "]"
+    if c["kind"] == "seqmap":
+        return f"CSeqMap {cmask(c['mask'])} [" + ";".join(f"({zlit(a)},{zlit(b)})" for a, b, _ in c["spans"]) + "]"
     raise ValueError(c["kind"])
 
 
@@ -935,8 +1014,24 @@ def coq_fcase(c):
     return f"CFmap {spans} {zlit(c['plen'])} {czlist(c['scales'])} {subs} {slices}"
 
 
-def run_fmodel(cases):
-    return core.coq_eval(PROP, ["Model.IndelMap", "Model.FeatureMap", "Model.FeatureMapRun"], "run_fcase",
+REMAP_PROBE = dict(kind="fmap", spans=[[2, 5, False], 2, [7, 9, True]], plen=10, scales=[], subs=[[[-5, -2, False]]], slices=[],
+                   block="probe")
+
+
+def probe_remap():
+    """True if the implementation maps a span lying wholly outside the map to as many lost positions as it has (repaired
+    Span.remap_with, finding C08-6), False if it pads twice (the rule before the repair)"""
+    doc = core.run_impl_lines("c08_impl.py", [REMAP_PROBE])[0]
+    try:
+        got = from_jsonable(doc["obs"])[13][0]
+        return fm_den_obs(got) == [None, None, None]
+    except Exception:
+        return False
+
+
+def run_fmodel(cases, fixed=False):
+    runner = "run_fcase_v " + ("true" if fixed else "false")
+    return core.coq_eval(PROP, ["Model.IndelMap", "Model.FeatureMap", "Model.FeatureMapRun"], runner,
                          [coq_fcase(c) for c in cases], "fcase", shard=150, tag="f")
 
 
@@ -952,7 +1047,8 @@ def run_model(cases, variant=None):
 
 # ------------------------------------------------------------------ comparison
 
-ITEMS = {"unary": (unary_items, flatten_unary), "binary": (binary_items, flatten_binary), "join": (join_items, lambda c, o: list(o))}
+ITEMS = {"unary": (unary_items, flatten_unary), "binary": (binary_items, flatten_binary), "join": (join_items, lambda c, o: list(o)),
+         "seqmap": (seqmap_items, lambda c, o: list(o))}
 
 
 def small_case(c, op, args):
@@ -967,6 +1063,8 @@ def small_case(c, op, args):
         c["others"] = [args]
     elif c["kind"] == "join":
         c["coordss"] = [args]
+    elif c["kind"] == "seqmap":
+        c["spans"] = [args] if args else []
     elif c["kind"] == "fmap":
         c["subs"] = [args] if op == "getitem_map" else []
         c["slices"] = [args] if op == "getitem_slice" else []
@@ -1052,6 +1150,17 @@ def compare_case(rep, tally, c, impl_doc, model_obs, seen_masks):
                 tally.disagreements.append(dict(key=key, case=small_case(c, op, args), op=op, args=args,
                                                 observed_impl=jsonable(i_v), model_output=jsonable(m_v)))
     extra = impl_doc.get("extra") or {}
+    if "all_at_once" in extra:
+        # all the spans in one alignment feature map, a lost span after each: lost spans are skipped, order is kept
+        tally.evaluations += 1
+        got = from_jsonable(extra["all_at_once"])
+        exp = [[o_seq_span(c["mask"], s_, e_)[0] for s_, e_, _ in c["spans"]], False]
+        if got != exp:
+            tally.n_vio += 1
+            rep.violation("make_seq_feature_map:whole-map",
+                          dict(case=dict(c, spans=c["spans"][:6]), op="make_seq_feature_map", expected_by_spec=jsonable(exp)[:1],
+                               observed_impl=jsonable(got), model_output=None,
+                               broken="make_seq_feature_map of a map with several spans and lost spans differs from span by span"))
     if "new_type_state" in extra:
         tally.evaluations += 1
         got = from_jsonable(extra["new_type_state"])
@@ -1071,7 +1180,9 @@ def build_cases(tier, rng, widen=1):
     cases += exhaustive_unary(tier)
     cases += exhaustive_binary(tier)
     cases += exhaustive_join(tier)
+    cases += exhaustive_seqmap(tier)
     for _ in range(widen):
+        cases += random_seqmap(rng, tier)
         cases += random_unary(rng, tier)
         cases += random_binary(rng, tier)
         cases += random_join(rng, tier)
@@ -1142,7 +1253,11 @@ def run(tier: str, seed: int) -> int:
         compare_case(rep, tally, c, impl[k], model[k] if model is not None else None, seen)
     fmodel = None
     try:
-        fmodel = run_fmodel(fm)
+        remap_fixed = probe_remap()
+        rep.coverage["model_variant"]["remap_with"] = (
+            "repaired code (Model/FeatureMapFixed.v remap_with_v2, finding C08-6 fixed)" if remap_fixed else
+            "code before the repair of C08-6 (Model/FeatureMap.v remap_with: a span wholly outside the map is padded twice)")
+        fmodel = run_fmodel(fm, remap_fixed)
     except core.CheckError as e:
         if not proof_broken:
             raise
